@@ -291,7 +291,7 @@ func (c *skCtx) cond(e ast.Expr) string {
 	return c.boolAtom(e)
 }
 
-var skWriteCall = regexp.MustCompile(`^(r\.\w+\.(Update|UpdateStatus|Create|Delete)|r\.update\w+Status|\w+\.Set)$`)
+var skWriteCall = regexp.MustCompile(`^(r\.\w+\.(Update|UpdateStatus|Create|Delete)|r\.update\w+Status|\w+\.Set|r\.applyValues)$`)
 
 // tok renders one token as a constructor of the Lean type `Tok`
 func tok(t string) string {
@@ -630,7 +630,7 @@ func (c *skCtx) block(stmts []ast.Stmt, k string, kLoop string, ind string) stri
 	return cat([]string{fmt.Sprintf("unsupported %T", s)}, next())
 }
 
-var skTrackedRoots = []string{"config", "proposal", "transaction", "prevProposal", "targetProposal", "prevTransaction",
+var skTrackedRoots = []string{"configuration", "config", "proposal", "transaction", "prevProposal", "targetProposal", "prevTransaction",
 	"targetTransaction", "nextProposal", "changeValues", "rollbackValues", "rollbackIndex"}
 
 func emitSkeleton(rel string, f *ast.File, goName, leanName string) {
@@ -671,10 +671,20 @@ func init() {
 				{"reconcileConfiguration", "v2sk_cfg_reconcile"}}},
 			{"pkg/controller/v2/mastership/controller.go", []fn{
 				{"Reconcile", "v2sk_mast_reconcile"}}},
+			// the v3 per-target transaction reconciler (C20)
+			{"pkg/controller/v3/transaction/controller.go", []fn{
+				{"reconcileTransaction", "v3sk_dispatch"}, {"reconcileChange", "v3sk_change"},
+				{"reconcileRollback", "v3sk_rollback"}, {"commitChange", "v3sk_commitChange"},
+				{"applyChange", "v3sk_applyChange"}, {"commitRollback", "v3sk_commitRollback"},
+				{"applyRollback", "v3sk_applyRollback"}}},
 		} {
 			f := parseFile(unit.rel)
 			for _, x := range unit.fns {
-				emitSkeleton(unit.rel, f, x.goName, x.leanName)
+				if strings.HasPrefix(x.leanName, "v3sk_") {
+					emitSkeletonSym(unit.rel, f, x.goName, x.leanName)
+				} else {
+					emitSkeleton(unit.rel, f, x.goName, x.leanName)
+				}
 			}
 		}
 	})
